@@ -103,10 +103,15 @@ TxOfKind(h, k, f, d, q, vf) ==
       [] k = 29 -> [k |-> "gov_toggle", from |-> f, id |-> q[1]]
       [] k = 30 -> [k |-> "spray", from |-> f, salt |-> 0]
       [] k = 31 -> [k |-> "gov_evm_params", from |-> f, fail |-> (Pick(1..2, h) = 1)]
+      [] k = 33 -> [k |-> "gov_submit2", from |-> f, amt2 |-> Pick({1, 777}, h)]
+      [] k = 34 -> [k |-> "eth_send_mod", from |-> f, mod |-> Pick(0..6, h), amt |-> Pick({"1", "1000000000000000000"}, h)]
+      [] k = 35 -> [k |-> "convert_into_vesting", from |-> f, to |-> (IF Pick(1..2, h) = 1 THEN "fresh" \o ToString(Pick(1..3, h)) ELSE Pick(Accts, h)),
+                    amt |-> Pick({"1000000000000000000", "250000000000000000000"}, h), lock |-> Pick({5, 300}, h), vest |-> Pick({1, 40}, h),
+                    merge |-> FALSE, stake |-> (Pick(1..3, h) # 1), val |-> Pick(0..2, h), startOff |-> Pick({-100, -100, 0}, h)]
       [] k = 27 -> [k |-> "convert_coin", from |-> q[2], to |-> Pick(Accts, h), id |-> q[1], amt |-> Pick({"1000", "400000000000000000000"}, h)]
 
-KindOf(k0) == IF k0 <= 32 THEN k0 ELSE IF k0 <= 34 THEN 18 ELSE IF k0 <= 36 THEN 19 ELSE IF k0 = 37 THEN 17 ELSE IF k0 = 38 THEN 15 ELSE 8
-RandTx(h, slot) == TxOfKind(h, KindOf(Pick(1..40, h)), Pick(Accts, h), Del(h), Liq(h), Vf(h))
+KindOf(k0) == IF k0 <= 35 THEN k0 ELSE IF k0 <= 37 THEN 18 ELSE IF k0 <= 39 THEN 19 ELSE IF k0 = 40 THEN 17 ELSE IF k0 = 41 THEN 15 ELSE 8
+RandTx(h, slot) == TxOfKind(h, KindOf(Pick(1..43, h)), Pick(Accts, h), Del(h), Liq(h), Vf(h))
 
 NewVest(txs)   == Cardinality({j \in DOMAIN txs : txs[j].k = "vest_create" /\ txs[j].merge = FALSE})
 Count(txs, kk) == Cardinality({j \in DOMAIN txs : txs[j].k = kk})
@@ -119,7 +124,10 @@ WithTopUps(txs) ==
                THEN F[j-1] \o <<txs[j], [k |-> "send", from |-> txs[j].from, to |-> txs[j].to, amt |-> "1000000000000000000"]>>
                ELSE IF txs[j].k \in {"gov_toggle", "gov_evm_params"}
                THEN F[j-1] \o <<txs[j]>> \o [v \in 1..3 |-> [k |-> "gov_vote", from |-> "v" \o ToString(v),
-                                                             id |-> np + 1 + Cardinality({y \in 1..(j-1) : txs[y].k \in {"gov_submit", "gov_toggle", "gov_evm_params"}}), opt |-> "yes"]]
+                                                             id |-> np + 1 + Cardinality({y \in 1..(j-1) : txs[y].k \in {"gov_submit", "gov_submit2", "gov_toggle", "gov_evm_params"}}), opt |-> "yes"]]
+               ELSE IF txs[j].k = "gov_submit2"
+               THEN F[j-1] \o <<txs[j]>> \o [v \in 1..3 |-> [k |-> "gov_vote", from |-> "v" \o ToString(v),
+                                                             id |-> np + 1 + Cardinality({y \in 1..(j-1) : txs[y].k \in {"gov_submit", "gov_submit2", "gov_toggle", "gov_evm_params"}}), opt |-> "veto"]]
                ELSE Append(F[j-1], txs[j])
     IN F[Len(txs)]
 
@@ -138,7 +146,7 @@ Block ==
        /\ nv' = nv + NewVest(one)
        /\ nc' = nc + Count(one, "deploy")
        /\ nl' = nl + Count(one, "liquidate")
-       /\ np' = np + Count(one, "gov_submit") + Count(one, "gov_toggle") + Count(one, "gov_evm_params")
+       /\ np' = np + Count(one, "gov_submit") + Count(one, "gov_submit2") + Count(one, "gov_toggle") + Count(one, "gov_evm_params")
        /\ blocks' = blocks + 1
        /\ dels' = dels \cup {<<one[j].from, one[j].val>> : j \in {x \in DOMAIN one : one[x].k \in {"delegate", "pc_delegate"}}}
                         \cup {<<one[j].from, one[j].val2>> : j \in {x \in DOMAIN one : one[x].k = "redelegate"}}
